@@ -21,7 +21,7 @@ TECH = {
  "C11": ("runtime monitoring: in-handler clock reading vs decoded deadline, fire-count bound, heap-invariant hook H2; ASan", "§5 C11"),
  "C12": ("runtime monitoring: differential testing of dispatch_time/dispatch_walltime against a 128-bit reference model + relational checks; UBSan", "§5 C12"),
  "C13": ("runtime monitoring: byte-string reference model over random operation trees, destructor counters; ASan/UBSan (+memcheck)", "§5 C13"),
- "C14": ("runtime monitoring: position-coded stream model over handler arguments, done/cleanup exactly-once, ordering; unusable descriptors (EBADF, wrong type / access mode, missing path) with a bystander channel; ASan/LSan", "§5 C14, §13.2"),
+ "C14": ("runtime monitoring: position-coded stream model over handler arguments, done/cleanup exactly-once, ordering; unusable descriptors (EBADF, wrong type / access mode, missing path) with a bystander channel; one socket read and written at the same time against a stalling peer; ASan/LSan", "§5 C14, §13.2"),
  "C15": ("runtime monitoring: conservation (sum/union/last) checker over merge and handler events, re-entrancy flag", "§5 C15"),
  "C16": ("runtime monitoring: stamp-order checker over cancel/handler/cancel-handler events, epoll registration probe; ASan", "§5 C16"),
  "C17": ("sanitizers: ASan (with stack-use-after-return detection) / LSan over release-racing lifetime scenarios incl. retargeted and ephemeral target queues and data objects of failed writes + finalizer/destructor counters", "§5 C17, §13.2"),
